@@ -137,21 +137,41 @@ let rec parse_node (ts : string list) : tree * string list * int =
           | _ -> raise (Bad_case t))
      | _ -> raise (Bad_case t))
 
-(* POST tokens -> tree (body manglers make the whole body malformed) *)
-let parse_post (ts : string list) : tree * int =
+(* POST tokens -> tree (body manglers make the whole body malformed) and how
+   the body is delivered: `Normal (complete), `ReadErr (the handler's body
+   read fails after some prefix), `Meth (method other than POST) *)
+let has_prefix p t = String.length t >= String.length p && String.sub t 0 (String.length p) = p
+let pct_ok lo s = match int_of_string_opt s with Some p -> p >= lo && p <= 100 | None -> false
+let parse_post_d (ts : string list) : tree * int * [ `Normal | `ReadErr | `Meth ] =
+  let dlv = ref `Normal and seen = ref false in
+  let set d = if !seen then raise (Bad_case "two deliveries"); seen := true; dlv := d in
   let rec pre mangled ts =
     match ts with
-    | t :: r when String.length t > 5 && String.sub t 0 5 = "TRUNC" ->
+    | t :: r when has_prefix "TRUNC" t && String.length t > 5 ->
         (match int_of_string_opt (tail t 5) with
          | Some p when p >= 1 && p <= 99 -> pre true r
          | _ -> raise (Bad_case t))
     | "TRAIL" :: r -> pre true r
     | "PAD" :: r -> pre mangled r
+    | "TCP" :: r -> set `Normal; pre mangled r
+    | t :: r when (has_prefix "RDERR" t || has_prefix "TCPCL" t || has_prefix "TCPCH" t) ->
+        if not (pct_ok 0 (tail t 5)) then raise (Bad_case t);
+        set `ReadErr; pre mangled r
+    | t :: r when has_prefix "METH" t ->
+        let m = tail t 4 in
+        if m = "" || m = "POST" || m = "GET" then raise (Bad_case t);
+        String.iter (fun c -> if not ((c >= 'A' && c <= 'Z') || (c >= 'a' && c <= 'z')) then raise (Bad_case t)) m;
+        set `Meth; pre mangled r
     | _ -> (mangled, ts) in
   let (mangled, ts') = pre false ts in
   let (t, rest, cnt) = parse_node ts' in
   if rest <> [] then raise (Bad_case "trailing tokens after tree");
-  if mangled then (Bad (n_of_int 100), 1) else (t, cnt)
+  if mangled then (Bad (n_of_int 100), 1, !dlv) else (t, cnt, !dlv)
+
+let parse_post (ts : string list) : tree * int =
+  let seend = List.exists (fun t -> t = "TCP" || has_prefix "RDERR" t || has_prefix "TCPCL" t || has_prefix "TCPCH" t || has_prefix "METH" t) ts in
+  if seend then raise (Bad_case "delivery modes are only for HTTP scripts");
+  let (t, c, _) = parse_post_d ts in (t, c)
 
 let check_msg (ts : string list) : unit =
   List.iter (fun t ->
@@ -218,6 +238,7 @@ let pr_obs = function
   | OOut (t, e) -> "T" ^ pr_ids t ^ "_E" ^ pr_ids e
   | OCfg None -> "G-"
   | OCfg (Some i) -> "G" ^ string_of_int (int_of_nat i)
+  | ORefused c -> "S" ^ dec_of_n c
 
 let judge _name ins outs =
   Hashtbl.reset keytab; condtab := [];
@@ -270,18 +291,30 @@ let judge _name ins outs =
            | [] -> if outs <> [] then raise (Unrepresentable "extra-output") else (List.rev acc_c, List.rev acc_o)
            | ("POST", ts) :: cr ->
                incr nposts;
-               let (t, _) = parse_post ts in
+               let (t, _, d) = parse_post_d ts in
+               let c = match d with `Normal -> Post t | `ReadErr -> PostErr t | `Meth -> BadMethod in
                (match outs with
-                | "S200" :: o' -> go cr o' (Post t :: acc_c) (OStatus true :: acc_o)
-                | "S400" :: o' -> go cr o' (Post t :: acc_c) (OStatus false :: acc_o)
+                | "S200" :: o' -> go cr o' (c :: acc_c) (OStatus true :: acc_o)
+                | "S400" :: o' -> go cr o' (c :: acc_c) (OStatus false :: acc_o)
+                | s :: o' when String.length s > 1 && s.[0] = 'S' && is_digits (tail s 1) && s <> "S0" ->
+                    go cr o' (c :: acc_c) (ORefused (n_of_dec (tail s 1)) :: acc_o)
                 | x :: _ -> raise (Unrepresentable x)
                 | [] -> raise (Unrepresentable "missing-output"))
            | ("GET", ts) :: cr ->
                if ts <> [] then raise (Bad_case "GET args");
                (match outs with
                 | "G-" :: o' -> go cr o' (Get :: acc_c) (OCfg None :: acc_o)
-                | g :: o' when String.length g > 1 && g.[0] = 'G' && is_digits (tail g 1) ->
-                    go cr o' (Get :: acc_c) (OCfg (Some (nat_of_int (int_of_string (tail g 1)))) :: acc_o)
+                | g :: o' when String.length g > 1 && g.[0] = 'G'
+                               && List.for_all is_digits (String.split_on_char '+' (tail g 1)) ->
+                    (* the returned text is the body of every listed POST (identical bodies):
+                       it is the model's answer if that is among them *)
+                    let cands = List.map int_of_string (String.split_on_char '+' (tail g 1)) in
+                    let pred = match List.rev (spec_script O None (List.rev (Get :: acc_c))) with
+                      | OCfg (Some i) :: _ -> Some (int_of_nat i) | _ -> None in
+                    let pick = match pred with
+                      | Some i when List.mem i cands -> i
+                      | _ -> List.fold_left max 0 cands in
+                    go cr o' (Get :: acc_c) (OCfg (Some (nat_of_int pick)) :: acc_o)
                 | x :: _ -> raise (Unrepresentable x)
                 | [] -> raise (Unrepresentable "missing-output"))
            | (c, ts) :: cr ->
@@ -303,6 +336,7 @@ let judge _name ins outs =
              | Some (OStatus false) -> "rejected_good_config"
              | Some (OOut _) -> "active_config"
              | Some (OCfg _) -> "reported_config"
+             | Some (ORefused _) -> "refusal_status"
              | None -> "script_shape" in
            VPropfail (clause, Printf.sprintf "first-diff-at-command=%d want=%s got=%s" k
                         (String.concat "_" (List.map pr_obs want)) (String.concat "_" (List.map pr_obs obs)))
